@@ -458,7 +458,18 @@ fn http_script(t: &Transport) -> Script {
         Transport::HttpBad { nth, kind, k } => {
             // declared lengths a lying server may announce: off by one either way, and sizes no allocation can satisfy
             let lies: [u64; 8] = [0, 1, 1 << 31, 1 << 40, 1 << 46, 1 << 62, i64::MAX as u64, u64::MAX];
-            let a = match kind % 8 {
+            let a = match kind % 9 {
+                // other answers a client has to survive: odd statuses with an error page or no body, a redirect loop
+                8 => match k % 8 {
+                    0 => Action { status: 204, body: Body::Empty, ..Default::default() },
+                    1 => Action { status: 301, body: Body::Page, ..Default::default() },
+                    2 => Action { status: 302, body: Body::Empty, redirect_self: true, ..Default::default() },
+                    3 => Action { status: 400, body: Body::Page, ..Default::default() },
+                    4 => Action { status: 416, body: Body::Empty, ..Default::default() },
+                    5 => Action { status: 500, body: Body::Page, ..Default::default() },
+                    6 => Action { status: 503, body: Body::Short(1), ..Default::default() },
+                    _ => Action { status: 206, body: Body::Page, ..Default::default() },
+                },
                 5 => Action { declared_len: Some(lies[*k as usize % lies.len()]), ..Default::default() },
                 6 => Action { declared_len: Some(lies[*k as usize % lies.len()]), body: Body::Short(*k as usize), ..Default::default() },
                 // no Content-Length at all: a chunked response is valid HTTP and must simply work
@@ -709,7 +720,7 @@ pub fn case_strategy() -> impl Strategy<Value = Case> {
         arch_cfg_strategy(4, true),
         prop::collection::vec(mutation_strategy(), 1..4),
         prop_oneof![1 => Just(None), 2 => related_strategy(200).prop_map(Some)],
-        prop_oneof![5 => Just(Transport::Local), 1 => Just(Transport::Http), 3 => (0u8..4, 0u8..8, 0u8..8).prop_map(|(nth, kind, k)| Transport::HttpBad { nth, kind, k })],
+        prop_oneof![5 => Just(Transport::Local), 1 => Just(Transport::Http), 3 => (0u8..4, 0u8..9, 0u8..8).prop_map(|(nth, kind, k)| Transport::HttpBad { nth, kind, k })],
         prop::bool::weighted(0.05),
     )
         .prop_map(|(source, cfg, muts, seed, transport, l2)| Case { source, cfg, muts, seed, transport, l2 })
